@@ -66,6 +66,9 @@ type BundlePart struct {
 
 	FragmentOffset  uint64
 	TotalDataLength uint64
+
+	// PayloadLength distinguishes fragments of different fragmentations which start at the same offset.
+	PayloadLength uint64
 }
 
 // storeBundle serializes the Bundle of a BundleItem/BundlePart to the disk.
@@ -109,9 +112,14 @@ func calcExpirationDate(b bpv7.Bundle) time.Time {
 	return b.PrimaryBlock.CreationTimestamp.DtnTime().Time().Add(lifetime)
 }
 
-// bundlePartPath returns a path for a Bundle.
-func bundlePartPath(id bpv7.BundleID, storagePath string) string {
-	f := fmt.Sprintf("%x", sha256.Sum256([]byte(id.String())))
+// bundlePartPath returns a path for a Bundle or, together with its payload's length, for a fragment.
+func bundlePartPath(id bpv7.BundleID, payloadLength uint64, storagePath string) string {
+	name := id.String()
+	if id.IsFragment {
+		name = fmt.Sprintf("%s-%d", name, payloadLength)
+	}
+
+	f := fmt.Sprintf("%x", sha256.Sum256([]byte(name)))
 	return path.Join(storagePath, f)
 }
 
@@ -131,11 +139,17 @@ func newBundleItem(b bpv7.Bundle, storagePath string) (bi BundleItem) {
 		Properties: make(map[string]interface{}),
 	}
 
+	var payloadLength uint64
+	if payloadBlock, err := b.PayloadBlock(); err == nil {
+		payloadLength = uint64(len(payloadBlock.Value.(*bpv7.PayloadBlock).Data()))
+	}
+
 	bp := BundlePart{
-		Filename: bundlePartPath(bid, storagePath),
+		Filename: bundlePartPath(bid, payloadLength, storagePath),
 
 		FragmentOffset:  bid.FragmentOffset,
 		TotalDataLength: bid.TotalDataLength,
+		PayloadLength:   payloadLength,
 	}
 
 	bi.Parts = append(bi.Parts, bp)
